@@ -80,5 +80,285 @@ theorem foldED_foldED (c : Char) : foldED (foldED c) = foldED c := by
     · simp [h1, h2]
 
 
+/-- `radix()` under upper-casing of its input -/
+theorem radix_upper_pair (cs : List Char) :
+    (radix (cs.map upper)).1 = (radix cs).1 ∧ (radix (cs.map upper)).2 = (radix cs).2.map upper := by
+  cases cs with
+  | nil => exact ⟨rfl, rfl⟩
+  | cons amp cs =>
+    cases cs with
+    | nil => exact ⟨rfl, rfl⟩
+    | cons x r =>
+      by_cases hx : x = 'H' ∨ x = 'h'
+      · have hu : upper x = 'H' := (upper_eq_H x).2 hx
+        have e1 : radix ((amp :: x :: r).map upper) =
+            (.literal (.hex (radixDigits true (r.map upper)).1), (radixDigits true (r.map upper)).2) := by
+          simp [radix, hu]
+        have e2 : radix (amp :: x :: r) =
+            (.literal (.hex (radixDigits true r).1), (radixDigits true r).2) := by
+          rcases hx with h | h <;> subst h <;> simp [radix]
+        rw [e1, e2, radixDigits_upper]
+        exact ⟨rfl, rfl⟩
+      · have hu : upper x ≠ 'H' := fun h => hx ((upper_eq_H x).1 h)
+        have hu' := upper_ne_h x
+        have hx1 : x ≠ 'H' := fun h => hx (Or.inl h)
+        have hx2 : x ≠ 'h' := fun h => hx (Or.inr h)
+        have e1 : radix ((amp :: x :: r).map upper) =
+            (.literal (.octal (radixDigits false ((x :: r).map upper)).1),
+              (radixDigits false ((x :: r).map upper)).2) := by
+          simp only [radix, List.map_cons, List.tail_cons]
+          split
+          · rename_i heq; exact absurd (List.cons.inj heq).1 hu
+          · rename_i heq; exact absurd (List.cons.inj heq).1 hu'
+          · rfl
+        have e2 : radix (amp :: x :: r) =
+            (.literal (.octal (radixDigits false (x :: r)).1), (radixDigits false (x :: r)).2) := by
+          simp only [radix, List.tail_cons]
+          split
+          · rename_i heq; exact absurd (List.cons.inj heq).1 hx1
+          · rename_i heq; exact absurd (List.cons.inj heq).1 hx2
+          · rfl
+        rw [e1, e2, radixDigits_upper]
+        exact ⟨rfl, rfl⟩
+
+theorem radix_upper (cs : List Char) :
+    radix (cs.map upper) = ((radix cs).1, (radix cs).2.map upper) :=
+  Prod.ext (radix_upper_pair cs).1 (radix_upper_pair cs).2
+
+
+theorem upper_eq_of_nonletter (c k : Char) (hk : ¬ (65 ≤ k.toNat ∧ k.toNat ≤ 90))
+    (hk' : ¬ (97 ≤ k.toNat ∧ k.toNat ≤ 122)) : (upper c = k) = (c = k) :=
+  propext (upper_eq_nonletter c k hk hk')
+
+theorem upper_expLetter (c : Char) :
+    (decide (upper c = 'E') || decide (upper c = 'e') || decide (upper c = 'D') || decide (upper c = 'd')) =
+      (decide (c = 'E') || decide (c = 'e') || decide (c = 'D') || decide (c = 'd')) := by
+  rw [Bool.eq_iff_iff]
+  simp only [Bool.or_eq_true, decide_eq_true_eq, char_eq_iff, upper_toNat]
+  have : 'E'.toNat = 69 := rfl
+  have : 'e'.toNat = 101 := rfl
+  have : 'D'.toNat = 68 := rfl
+  have : 'd'.toNat = 100 := rfl
+  split <;> omega
+
+/-- characters whose folding by `number()` does not depend on their case: everything but the
+    letters other than `e`, `d` -/
+def NumHeadOk (c : Char) : Prop := foldED (upper c) = foldED c
+
+instance (c : Char) : Decidable (NumHeadOk c) := by unfold NumHeadOk; infer_instance
+
+theorem numHeadOk_of_not_lower (c : Char) (h : ¬ (97 ≤ c.toNat ∧ c.toNat ≤ 122)) : NumHeadOk c := by
+  unfold NumHeadOk; rw [upper_of_not_lower c h]
+
+theorem numHeadOk_e : NumHeadOk 'e' := by decide
+theorem numHeadOk_d : NumHeadOk 'd' := by decide
+
+theorem numHeadOk_of_isDigit (c : Char) (h : isDigit c = true) : NumHeadOk c := by
+  rw [isDigit_iff] at h; exact numHeadOk_of_not_lower c (by omega)
+
+/-- `number()` is blind to the case of its input: same token, same remainder up to case -/
+theorem numberLoop_upper (cs : List Char) : ∀ (s : Str) (dg : Nat) (dec ex : Bool),
+    (∀ c ∈ cs.head?, NumHeadOk c) →
+    numberLoop (cs.map upper) s dg dec ex =
+      ((numberLoop cs s dg dec ex).1, (numberLoop cs s dg dec ex).2.map upper) := by
+  induction cs with
+  | nil => intros; rfl
+  | cons c cs ih =>
+    intro s dg dec ex hc
+    have hf : foldED (upper c) = foldED c := hc c (by simp)
+    rw [List.map_cons, numberLoop_cons, numberLoop_cons, hf]
+    split
+    · rfl
+    split
+    · rfl
+    split
+    · rfl
+    cases cs with
+    | nil => rfl
+    | cons pk tl =>
+      have e1 : (upper pk = '+') = (pk = '+') := upper_eq_of_nonletter pk '+' (by decide) (by decide)
+      have e2 : (upper pk = '-') = (pk = '-') := upper_eq_of_nonletter pk '-' (by decide) (by decide)
+      have e3 : (upper pk = '.') = (pk = '.') := upper_eq_of_nonletter pk '.' (by decide) (by decide)
+      have e4 : (upper pk = '!') = (pk = '!') := upper_eq_of_nonletter pk '!' (by decide) (by decide)
+      have e5 : (upper pk = '#') = (pk = '#') := upper_eq_of_nonletter pk '#' (by decide) (by decide)
+      have e6 : (upper pk = '%') = (pk = '%') := upper_eq_of_nonletter pk '%' (by decide) (by decide)
+      have e7 := upper_expLetter pk
+      simp only [List.map_cons, isDigit_upper, e1, e2, e3, e4, e5, e6, e7]
+      have hpk : ∀ (hh : NumHeadOk pk) s' dg' dec' ex',
+          numberLoop (upper pk :: tl.map upper) s' dg' dec' ex' =
+            ((numberLoop (pk :: tl) s' dg' dec' ex').1, (numberLoop (pk :: tl) s' dg' dec' ex').2.map upper) := by
+        intro hh s' dg' dec' ex'
+        rw [← List.map_cons]; exact ih s' dg' dec' ex' (by intro x hx; simp at hx; subst hx; exact hh)
+      split
+      · rename_i hED
+        split
+        · rename_i hpm
+          refine hpk ?_ _ _ _ _
+          simp only [Bool.or_eq_true, decide_eq_true_eq] at hpm
+          rcases hpm with h | h <;> subst h <;> decide
+        split
+        · -- push-back of the folded exponent letter
+          have : upper (foldED c) = foldED c := by
+            simp only [Bool.or_eq_true, decide_eq_true_eq] at hED
+            rcases hED with h | h <;> rw [h] <;> decide
+          simp [this]
+        · rename_i hd
+          refine hpk (numHeadOk_of_isDigit pk (by simpa using hd)) _ _ _ _
+      split
+      · rename_i hd
+        exact hpk (numHeadOk_of_isDigit pk hd) _ _ _ _
+      split
+      · rename_i hdot
+        refine hpk ?_ _ _ _ _
+        simp only [Bool.and_eq_true, decide_eq_true_eq] at hdot
+        rw [hdot.2]; decide
+      split
+      · rename_i hexp
+        refine hpk ?_ _ _ _ _
+        simp only [Bool.and_eq_true, Bool.or_eq_true, decide_eq_true_eq] at hexp
+        rcases hexp.2 with ((h | h) | h) | h <;> subst h <;> decide
+      split
+      · rename_i hsfx
+        refine hpk ?_ _ _ _ _
+        simp only [Bool.or_eq_true, decide_eq_true_eq] at hsfx
+        rcases hsfx with (h | h) | h <;> subst h <;> decide
+      · rfl
+
+
+theorem number_upper (c : Char) (cs : List Char) (h : (isDigit c || c = '.') = true) :
+    number ((c :: cs).map upper) = ((number (c :: cs)).1, (number (c :: cs)).2.map upper) := by
+  refine numberLoop_upper (c :: cs) [] 0 false false ?_
+  intro x hx; simp at hx; subst hx
+  simp only [Bool.or_eq_true, decide_eq_true_eq] at h
+  rcases h with h | h
+  · exact numHeadOk_of_isDigit _ h
+  · subst h; decide
+
+theorem isWs_comp_upper : (isWs ∘ upper) = isWs := by
+  funext c; exact isWs_upper c
+
+theorem whitespace_upper (cs : List Char) :
+    whitespace (cs.map upper) = ((whitespace cs).1, (whitespace cs).2.map upper) := by
+  cases cs with
+  | nil => rfl
+  | cons c cs =>
+    simp only [List.map_cons, whitespace, List.takeWhile_map, List.dropWhile_map, isWs_comp_upper,
+      List.length_map]
+
+theorem stringBody_upper (cs : List Char) :
+    stringBody (cs.map upper) = ((stringBody cs).1.map upper, (stringBody cs).2.map upper) := by
+  induction cs with
+  | nil => rfl
+  | cons c cs ih =>
+    have e : (upper c = '"') = (c = '"') := upper_eq_of_nonletter c '"' (by decide) (by decide)
+    simp only [List.map_cons, stringBody, e]
+    split
+    · rfl
+    · simp [ih]
+
+theorem upper_of_not_isAlpha (c : Char) (h : isAlpha c = false) : upper c = c := by
+  apply upper_of_not_lower
+  intro hh
+  have : isAlpha c = true := (isAlpha_iff c).2 (Or.inr hh)
+  rw [h] at this; exact absurd this (by simp)
+
+theorem minutiaLoop_upper (cs : List Char) : ∀ (s : Str), (∀ c ∈ cs.head?, isAlpha c = false) →
+    minutiaLoop (cs.map upper) s = ((minutiaLoop cs s).1, (minutiaLoop cs s).2.map upper) := by
+  induction cs with
+  | nil => intros; rfl
+  | cons c cs ih =>
+    intro s hc
+    have hu := upper_of_not_isAlpha c (hc c (by simp))
+    rw [List.map_cons, hu]
+    unfold minutiaLoop
+    simp only
+    split
+    · rfl
+    · cases cs with
+      | nil => rfl
+      | cons pk tl =>
+        simp only [List.map_cons, isAlpha_upper, isDigit_upper, isWs_upper]
+        split
+        · rfl
+        · rename_i hpk
+          have ha : isAlpha pk = false := by
+            simp only [Bool.or_eq_true, not_or, Bool.not_eq_true] at hpk; exact hpk.1.1
+          rw [← List.map_cons]
+          exact ih _ (by intro x hx; simp at hx; subst hx; exact ha)
+
+/-- upper-case the payloads that the lexer copies verbatim (remark text, string literals) -/
+def foldTok : Token → Token
+  | .unknown s => .unknown (s.map upper)
+  | .literal (.string s) => .literal (.string (s.map upper))
+  | t => t
+
+theorem map_upper_upper (l : List Char) : (l.map upper).map upper = l.map upper := by
+  simp [List.map_map, Function.comp_def, upper_upper]
+
+/-- the token iterator is blind to the case of ASCII letters, except inside the payloads -/
+theorem lexFrom_upper (n : Nat) : ∀ (cs : List Char) (r : Bool), cs.length ≤ n →
+    (lexFrom (cs.map upper) r).map foldTok = (lexFrom cs r).map foldTok := by
+  induction n with
+  | zero =>
+    intro cs r h
+    have : cs = [] := by cases cs <;> simp_all
+    subst this; rfl
+  | succ n ih =>
+    intro cs r h
+    cases cs with
+    | nil => rfl
+    | cons pk cs =>
+      have hlen : cs.length ≤ n := by simpa using h
+      rw [List.map_cons, lexFrom_cons, lexFrom_cons]
+      have e1 : (upper pk = '.') = (pk = '.') := upper_eq_of_nonletter pk '.' (by decide) (by decide)
+      have e2 : (upper pk = '"') = (pk = '"') := upper_eq_of_nonletter pk '"' (by decide) (by decide)
+      have e3 : (upper pk = '&') = (pk = '&') := upper_eq_of_nonletter pk '&' (by decide) (by decide)
+      simp only [isWs_upper, isDigit_upper, isAlpha_upper, e1, e2, e3]
+      split
+      · simp [foldTok, map_upper_upper, upper_upper]
+      split
+      · have := whitespace_upper (pk :: cs)
+        rw [List.map_cons] at this
+        rw [this]
+        simp only [List.map_cons]
+        rw [ih _ _ (by have := whitespace_shortens pk cs; simp only [List.length_cons] at this; omega)]
+      split
+      · rename_i hd
+        have := number_upper pk cs hd
+        rw [List.map_cons] at this
+        rw [this]
+        simp only [List.map_cons]
+        rw [ih _ _ (by have := number_shortens pk cs hd; simp only [List.length_cons] at this; omega)]
+      split
+      · have := alphaLoop_upper (pk :: cs) [] false []
+        rw [List.map_cons] at this
+        simp only [alphabetic, this]
+        split
+        · rfl
+        · simp only [List.map_cons, List.map_append]
+          rw [ih _ _ (by have := alphabetic_shortens pk cs; simp only [List.length_cons, alphabetic] at this; omega)]
+      split
+      · have hs : string (upper pk :: cs.map upper) =
+            (.literal (.string ((stringBody cs).1.map upper)), (stringBody cs).2.map upper) := by
+          simp [string, stringBody_upper]
+        have hs' : string (pk :: cs) = (.literal (.string (stringBody cs).1), (stringBody cs).2) := by
+          simp [string]
+        rw [hs, hs']
+        simp only [List.map_cons, foldTok, map_upper_upper]
+        rw [ih _ _ (by have := stringBody_length_le cs; omega)]
+      split
+      · have := radix_upper (pk :: cs)
+        rw [List.map_cons] at this
+        rw [this]
+        simp only [List.map_cons]
+        rw [ih _ _ (by have := radix_shortens pk cs; simp only [List.length_cons] at this; omega)]
+      · rename_i ha _ _
+        have := minutiaLoop_upper (pk :: cs) [] (by intro x hx; simp at hx; subst hx; simpa using ha)
+        rw [List.map_cons] at this
+        simp only [minutia, this]
+        simp only [List.map_cons]
+        rw [ih _ _ (by have := minutia_shortens pk cs; simp only [List.length_cons, minutia] at this; omega)]
+
+
 end Lex
 end Basic
